@@ -52,3 +52,18 @@ fn c13_use_resources_replaces_the_store() {
     assert_eq!(redirect(&e, "https://b.test/s.js"), None);                   // removed resources are gone
     assert_eq!(redirect(&e, "https://c.test/s.js"), None);                   // ... and so are their aliases
 }
+
+/// OBL C13.store.lookup
+#[test]
+fn c13_lookup_is_by_name_or_alias_only() {
+    // "provided the resource is loaded": named by its name or one of its aliases - nothing else resolves
+    let mut e = Engine::from_rules(["||a.test^$redirect=noop", "||b.test^$redirect=noop.js", "||c.test^$redirect=nooop.js", "||d.test^$redirect=NOOP.JS",
+                                    "||e.test^$redirect-rule=tracker", "||e.test^", "||f.test^$redirect=alias1"], ParseOptions::default());
+    e.use_resources([res("noop.js", &["alias1"], "noop"), res("tracker.js", &[], "tracker")]);
+    assert_eq!(redirect(&e, "https://a.test/s.js"), None);
+    assert_eq!(redirect(&e, "https://b.test/s.js"), Some(data_url("noop")));
+    assert_eq!(redirect(&e, "https://c.test/s.js"), None);
+    assert_eq!(redirect(&e, "https://d.test/s.js"), None);
+    assert_eq!(redirect(&e, "https://e.test/s.js"), None);
+    assert_eq!(redirect(&e, "https://f.test/s.js"), Some(data_url("noop")));
+}
